@@ -251,7 +251,7 @@ Definition checks (c : case) : list (N * bool) :=
           | Ok _, None => false
           | _, _ => true
           end) ]
-  ++ (if (c_kind c =? 2)%N then [ (panic_class m, false) ] else [])
+  ++ (if (c_kind c =? 2)%N then [ ((if (panic_class m =? 0)%N then 140%N else panic_class m), false) ] else [])   (* 140: a panic the model has no site for *)
   ++ match c_atx c with
      | Some a => c02_clauses c a ++ c08_clauses c a ++ c10_clauses c a
      | None => []
